@@ -90,6 +90,14 @@ func (g *ScenarioGun) shoot(ammo *Scenario, templateVars map[string]any) error {
 	templateVars["request"] = requestVars
 
 	startAt := time.Now()
+	// min_waiting_time is the minimum execution time of the scenario, also when a step fails and the
+	// scenario is aborted: otherwise a failing target is hit again without any pause.
+	defer func() {
+		spent := time.Since(startAt)
+		if ammo.MinWaitingTime > spent {
+			time.Sleep(ammo.MinWaitingTime - spent)
+		}
+	}()
 	var idBuilder strings.Builder
 	rnd := strconv.Itoa(rand.Int())
 	for _, req := range ammo.Requests {
@@ -102,10 +110,6 @@ func (g *ScenarioGun) shoot(ammo *Scenario, templateVars map[string]any) error {
 			g.reportErr(sample, err)
 			return err
 		}
-	}
-	spent := time.Since(startAt)
-	if ammo.MinWaitingTime > spent {
-		time.Sleep(ammo.MinWaitingTime - spent)
 	}
 	return nil
 }
